@@ -147,9 +147,13 @@ CLAIMS = {
              "configuration state is modified, a field read afterwards is unchanged, and every field not reported is "
              "unchanged or overwritten. DoConfigWrite/DoBindConfig/DoDeleteConfig/DoCallSwap, the four API wrappers "
              "and Procedure.__init__ are proved to pass exactly the reported set on to derive_proc; call_eqv proceeds "
-             "only if get_strictest_eqv_proc relates the callees and uses exactly its keys.",
+             "only if get_strictest_eqv_proc relates the callees and uses exactly its keys. "
+             "ContextExtraction.preenv_s/preenv_stmts (mutual induction) and loop_preenv are proved against a ghost "
+             "specification of the pre-environment: it accounts for the preceding statements of every enclosing block "
+             "and the earlier iterations of every enclosing loop.",
         design_ref="3/C10",
-        note="Assumes soundness of the global data-flow (globenv), effect extraction, get_point_exprs, is_elem/is_empty "
+        note="Assumes soundness of the global data-flow (globenv of a block; control predicate and post-effects of "
+             "ContextExtraction), effect extraction, get_point_exprs, is_elem/is_empty "
              "and z3; 1-3 candidate fields and small statement positions are enumerated as shapes.",
         technique=_T + "; formula-construction contracts (captured solver formulas imply the property's condition)"),
     "C11": dict(
@@ -176,7 +180,9 @@ CLAIMS = {
     "C13": dict(
         text="Every arithmetic operator of IndexRange, the recursive range analysis (structural induction with the "
              "contract as induction hypothesis), constant_bound and the IndexRangeEnvironment queries are proved "
-             "gamma-sound against floor-division semantics for all integer bounds and values; obligations are "
+             "gamma-sound against floor-division semantics for all integer bounds and values; the queries are proved "
+             "to leave the environment as they found it and no function under contract writes module-level state "
+             "(frame obligation), so an answer cannot depend on earlier calls; obligations are "
              "generated from the current source on every run and discharged by z3.",
         design_ref="3/C13",
         note="Assumes pyvc's Python semantics, z3, LoopIR_Compare.match_e (used by the join) returning True only for "
@@ -217,7 +223,9 @@ CLAIMS = {
         text="Every place in the four anchor files where an unordered value (set, Sym-keyed container) is consumed "
              "in order is an obligation discharged by an ordering rule (int elements, order-insensitive body, sorted "
              "with an injective key, ...); Sym.__lt__ is proved a strict total order consistent with __eq__ and "
-             "invariant under a uniform shift of the symbol counter.",
+             "invariant under a uniform shift of the symbol counter; every keyed sorted/sort/min/max in the anchor "
+             "files is an obligation that its key renders nothing to text or numbers (repr/str/format/id/hash), so an "
+             "order depends on symbols only through Sym.__lt__.",
         design_ref="3/C18, 2.6-D",
         note="Assumes injectivity of two sort keys (extern name+type, memory names), order-insensitivity of calls "
              "in pure position, and everything outside the four anchor files (unification variable order, z3 "
